@@ -642,6 +642,69 @@ func TestAAAConcurrentRoundTrips(t *testing.T) {
 	}
 	wg.Wait()
 	ev.Bulk("concurrent/round-trips-from-8-goroutines", n, n)
+	// second phase: every goroutine decodes ITS OWN message over and over in a tight loop (pollers that read the same field
+	// values again and again, each its own): a result must never be what another goroutine decoded at that moment
+	{
+		type own struct {
+			c    rtCase
+			enc  []byte
+			want []string
+			typ  reflect.Type
+		}
+		var owns []own
+		for _, c := range cases {
+			proto, _, ok := prototype(c.Kind, c.Code)
+			if !ok {
+				continue
+			}
+			v := reflect.ValueOf(proto).Elem()
+			ls := fv.Leaves(v)
+			if len(ls) != len(c.Fields) || len(ls) == 0 {
+				continue
+			}
+			for i, f := range ls {
+				fv.Fill(f, c.Fields[i])
+			}
+			enc, err := codec.Marshal(proto)
+			if err != nil {
+				continue
+			}
+			owns = append(owns, own{c, enc, fv.CanonAll(v), v.Type()})
+		}
+		var n2 int64
+		var wg2 sync.WaitGroup
+		iters := ev.Pick(6000, 100000)
+		for w := 0; w < 8 && w < len(owns); w++ {
+			wg2.Add(1)
+			go func(o own) {
+				defer wg2.Done()
+				for i := 0; i < iters; i++ {
+					out := reflect.New(o.typ)
+					if err := codec.Unmarshal(o.enc, out.Interface()); err != nil {
+						mu.Lock()
+						if first == nil {
+							first, firstCase = rp.Failf("codec.Unmarshal/rejects-own-encoding/concurrent", "decoding %x failed while other goroutines were decoding their own messages: %v", o.enc, err), o.c
+						}
+						mu.Unlock()
+						return
+					}
+					if d := fv.FirstDiff(o.want, fv.CanonAll(out.Elem())); d != "" {
+						mu.Lock()
+						if first == nil {
+							first, firstCase = rp.Failf("codec/roundtrip/concurrent", "a goroutine that decodes the same message %x over and over got another value while other goroutines were decoding theirs: %s", o.enc, d), o.c
+						}
+						mu.Unlock()
+						return
+					}
+				}
+				mu.Lock()
+				n2 += int64(iters)
+				mu.Unlock()
+			}(owns[(w*7)%len(owns)])
+		}
+		wg2.Wait()
+		ev.Bulk("concurrent/own-message-decoded-repeatedly", n2, n2)
+	}
 	if first != nil && ev.Failure("roundtrip", first.Fingerprint, "(8 goroutines using the codec at the same time) "+first.Msg, firstCase) {
 		t.Errorf("[%s] %s", first.Fingerprint, first.Msg)
 	}
